@@ -359,7 +359,7 @@ def cases():
         if m.nboxes() == [3]:
             for lay in families.all_layouts(3, 2 if tier == 'quick' else 3):
                 out.append({'label': '%s/layout%s' % (m.name, lay), 'mesh': m, 'fields': fsets[2], 'layout': [lay], 'geom': 1})
-    nrand = 6 if tier == 'quick' else 60
+    nrand = 6 if tier == 'quick' else 300
     for r in range(nrand):
         nd = rnd.choice([2, 3])
         m = families.random_mesh(rnd, nd, max_levels=2 if tier == 'quick' else 3)
